@@ -191,24 +191,47 @@ func runC18(c *Ctx, r *Report) {
 				pc = pathConds(f)
 			}
 			dec := b.Op == token.SUB
+			isEndMinus1 := func(y ssa.Value) bool {
+				sub, ok := y.(*ssa.BinOp)
+				if !ok || sub.Op != token.SUB || !isConstInt(sub.Y, 1) {
+					return false
+				}
+				return isLenOf(sub.X, func(x ssa.Value) bool { return isLoadOf(x, fLines) })
+			}
 			holds, _ := pc.Implies(st.Block(), func(lits []Lit) bool {
 				return hasLit(lits, func(a ssa.Value, v bool) bool {
 					bo, ok := a.(*ssa.BinOp)
-					if !ok || !v || !isLoadOf(bo.X, fCur) {
+					if !ok {
 						return false
 					}
 					if dec {
-						return bo.Op == token.GTR && isConstInt(bo.Y, 0)
-					}
-					// cursor < len(lines)-1
-					if bo.Op != token.LSS {
+						// establishes cursor >= 1
+						x, op, k, ok := cmpInt(a)
+						if !ok || !isLoadOf(x, fCur) {
+							return false
+						}
+						switch op {
+						case token.GTR:
+							return v && k >= 0
+						case token.GEQ:
+							return v && k >= 1
+						case token.LEQ:
+							return !v && k >= 0
+						case token.LSS:
+							return !v && k >= 1
+						case token.NEQ:
+							return false
+						}
 						return false
 					}
-					sub, ok := bo.Y.(*ssa.BinOp)
-					if !ok || sub.Op != token.SUB || !isConstInt(sub.Y, 1) {
-						return false
+					// establishes cursor < len(lines)-1
+					switch {
+					case isLoadOf(bo.X, fCur) && isEndMinus1(bo.Y):
+						return (bo.Op == token.LSS && v) || (bo.Op == token.GEQ && !v)
+					case isLoadOf(bo.Y, fCur) && isEndMinus1(bo.X):
+						return (bo.Op == token.GTR && v) || (bo.Op == token.LEQ && !v)
 					}
-					return isLenOf(sub.X, func(x ssa.Value) bool { return isLoadOf(x, fLines) })
+					return false
 				})
 			})
 			what := "cursor++ under cursor < len(lines)-1"
